@@ -25,15 +25,7 @@ type sitem struct {
 func (p *sprog) apply(d *gorm.DB) *gorm.DB {
 	for _, it := range p.items {
 		if it.step != nil {
-			q, args := it.step.U.Query(H.DB)
-			switch it.step.Op {
-			case "where":
-				d = d.Where(q, args...)
-			case "not":
-				d = d.Not(q, args...)
-			default:
-				d = d.Or(q, args...)
-			}
+			d = applyStep(d, *it.step)
 			continue
 		}
 		fs := make([]func(*gorm.DB) *gorm.DB, len(it.subs))
@@ -50,7 +42,7 @@ func (p *sprog) text() string {
 	var parts []string
 	for _, it := range p.items {
 		if it.step != nil {
-			parts = append(parts, fmt.Sprintf("%s(%s)", strings.Title(it.step.Op), it.step.U.Desc))
+			parts = append(parts, fmt.Sprintf("%s(%s)", opName(*it.step), it.step.U.Desc))
 			continue
 		}
 		fs := make([]string, len(it.subs))
